@@ -52,15 +52,45 @@ def words(ws):
     return union(lit(w) for w in ws)
 
 
+_ICASE = [False]
+
+
+def _lit_ci(c):
+    """A literal character, honouring re.IGNORECASE (simple case folding)."""
+    if not _ICASE[0]:
+        return lit(c)
+    forms = {c, c.lower(), c.upper()}
+    forms = {f for f in forms if len(f) == 1}
+    # characters that case-fold onto ASCII letters (re matches them under
+    # re.I without re.ASCII): U+0130, U+0131, U+017F, U+212A
+    extra = {'i': '\u0130\u0131', 's': '\u017f', 'k': '\u212a'}
+    for f in list(forms):
+        forms |= set(extra.get(f.lower(), ''))
+    return union(lit(f) for f in sorted(forms))
+
+
+def _rng_ci(lo, hi):
+    if not _ICASE[0]:
+        return rng(lo, hi)
+    alts = [rng(lo, hi)]
+    for a, b, d in ((97, 122, -32), (65, 90, 32)):
+        l2, h2 = max(lo, a), min(hi, b)
+        if l2 <= h2:
+            alts.append(rng(l2 + d, h2 + d))
+    if any(ord(ch) > 127 for ch in (chr(lo), chr(hi))):
+        raise Untranslatable('non-ASCII range under re.I')
+    return union(alts)
+
+
 def _charset(items):
     neg, alts = False, []
     for op, av in items:
         if op is sre_c.NEGATE:
             neg = True
         elif op is sre_c.LITERAL:
-            alts.append(lit(chr(av)))
+            alts.append(_lit_ci(chr(av)))
         elif op is sre_c.RANGE:
-            alts.append(rng(*av))
+            alts.append(_rng_ci(*av))
         elif op is sre_c.CATEGORY:
             if av is sre_c.CATEGORY_DIGIT:
                 # re.UNICODE \d also matches other decimal digits; PyYAML's
@@ -80,9 +110,9 @@ def _charset(items):
 
 def _tr1(op, av):
     if op is sre_c.LITERAL:
-        return lit(chr(av))
+        return _lit_ci(chr(av))
     if op is sre_c.NOT_LITERAL:
-        return z3.Intersect(ANYCHAR, z3.Complement(lit(chr(av))))
+        return z3.Intersect(ANYCHAR, z3.Complement(_lit_ci(chr(av))))
     if op is sre_c.ANY:
         return z3.Intersect(ANYCHAR, z3.Complement(lit('\n')))
     if op is sre_c.IN:
@@ -136,8 +166,16 @@ def match_lang(pat):
     `$` accepts any continuation.  Anchors are handled at top level and at the
     top level of a top-level alternation (that is how PyYAML writes them:
     ^(?:a|b|c)$  or  ^(?:a)$|^(?:b)$ )."""
-    if pat.flags & (re.I | re.M | re.S):
+    if pat.flags & (re.M | re.S | re.A | re.L):
         raise Untranslatable('flags %r' % pat.flags)
+    _ICASE[0] = bool(pat.flags & re.I)
+    try:
+        return _match_lang(pat)
+    finally:
+        _ICASE[0] = False
+
+
+def _match_lang(pat):
     parsed = list(sre_parse.parse(pat.pattern, pat.flags & re.X))
     tail = z3.Star(z3.Intersect(ANYCHAR, z3.Complement(lit('\n'))))
     if len(parsed) == 1 and parsed[0][0] is sre_c.BRANCH:
